@@ -290,20 +290,7 @@ theorem localCert_not_glob :
 
 /-! ### the repaired local certificate: guards on the source interval, not on the overlap -/
 
-/-- proposed replacement of `locCertOk` (core Lean only; belongs in `Model/Transp1dLocal.lean`):
-`right` for every sink `j` whose end lies right of the start of source `i`, `left` for every sink
-`j+1` whose start lies left of the end of source `i` -/
-def ivCertOk (sv : Solver) (p : List Int) (be : List Int) : Bool :=
-  allBelow sv.v.length (fun j => decide (0 ≤ be.getD j 0)) &&
-  allBelow sv.v.length (fun j => decide (0 < be.getD j 0 →
-    fillP sv p j sv.u.length = sv.D.getD (j + 1) 0 - sv.D.getD j 0)) &&
-  allBelow sv.u.length (fun i => allBelow (sv.v.length - 1) fun j =>
-    decide (loP sv p i < sv.D.getD (j + 1) 0 →
-      cs sv i j + be.getD j 0 ≤ cs sv i (j + 1) + be.getD (j + 1) 0) &&
-    decide (sv.D.getD (j + 1) 0 < hiP sv p i →
-      cs sv i (j + 1) + be.getD (j + 1) 0 ≤ cs sv i j + be.getD j 0))
-
-/-- proposed replacement of `LocalCert` -/
+/-- `ivCertOk` (Model/Transp1dLocal.lean) as a Prop over price functions -/
 structure IvCert (sv : Solver) (p : List Int) (be : Nat → Int) : Prop where
   nn : ∀ j, j < sv.v.length → 0 ≤ be j
   sat : ∀ j, j < sv.v.length → 0 < be j →
